@@ -59,7 +59,9 @@ func (s *behaviorSubjectImpl[T]) Subscribe(destination Observer[T]) Subscription
 func (s *behaviorSubjectImpl[T]) SubscribeWithContext(subscriberCtx context.Context, destination Observer[T]) Subscription {
 	subscription := NewSubscriber(destination)
 
+	verifPoint("subject_behavior:SubscribeWithContext:lock#0", s)
 	s.mu.Lock()
+	defer verifPoint("subject_behavior:SubscribeWithContext:ret#0", s)
 	defer s.mu.Unlock()
 
 	switch s.status {
@@ -100,6 +102,7 @@ func (s *behaviorSubjectImpl[T]) Next(value T) {
 
 // Implements Observer.
 func (s *behaviorSubjectImpl[T]) NextWithContext(ctx context.Context, value T) {
+	verifPoint("subject_behavior:NextWithContext:lock#0", s)
 	s.mu.Lock()
 
 	if s.status == KindNext {
@@ -110,6 +113,7 @@ func (s *behaviorSubjectImpl[T]) NextWithContext(ctx context.Context, value T) {
 	}
 
 	s.mu.Unlock()
+	verifPoint("subject_behavior:NextWithContext:unlocked#0", s)
 }
 
 // Implements Observer.
@@ -119,6 +123,7 @@ func (s *behaviorSubjectImpl[T]) Error(err error) {
 
 // Implements Observer.
 func (s *behaviorSubjectImpl[T]) ErrorWithContext(ctx context.Context, err error) {
+	verifPoint("subject_behavior:ErrorWithContext:lock#0", s)
 	s.mu.Lock()
 
 	if s.status == KindNext {
@@ -130,6 +135,7 @@ func (s *behaviorSubjectImpl[T]) ErrorWithContext(ctx context.Context, err error
 	}
 
 	s.mu.Unlock()
+	verifPoint("subject_behavior:ErrorWithContext:unlocked#0", s)
 	s.unsubscribeAll()
 }
 
@@ -140,6 +146,7 @@ func (s *behaviorSubjectImpl[T]) Complete() {
 
 // Implements Observer.
 func (s *behaviorSubjectImpl[T]) CompleteWithContext(ctx context.Context) {
+	verifPoint("subject_behavior:CompleteWithContext:lock#0", s)
 	s.mu.Lock()
 
 	if s.status == KindNext {
@@ -150,6 +157,7 @@ func (s *behaviorSubjectImpl[T]) CompleteWithContext(ctx context.Context) {
 	}
 
 	s.mu.Unlock()
+	verifPoint("subject_behavior:CompleteWithContext:unlocked#0", s)
 	s.unsubscribeAll()
 }
 
@@ -177,7 +185,9 @@ func (s *behaviorSubjectImpl[T]) CountObservers() int {
 
 // Implements Observer.
 func (s *behaviorSubjectImpl[T]) IsClosed() bool {
+	verifPoint("subject_behavior:IsClosed:lock#0", s)
 	s.mu.Lock()
+	defer verifPoint("subject_behavior:IsClosed:ret#0", s)
 	defer s.mu.Unlock()
 
 	return s.status != KindNext
@@ -185,7 +195,9 @@ func (s *behaviorSubjectImpl[T]) IsClosed() bool {
 
 // Implements Observer.
 func (s *behaviorSubjectImpl[T]) HasThrown() bool {
+	verifPoint("subject_behavior:HasThrown:lock#0", s)
 	s.mu.Lock()
+	defer verifPoint("subject_behavior:HasThrown:ret#0", s)
 	defer s.mu.Unlock()
 
 	return s.status == KindError
@@ -193,7 +205,9 @@ func (s *behaviorSubjectImpl[T]) HasThrown() bool {
 
 // Implements Observer.
 func (s *behaviorSubjectImpl[T]) IsCompleted() bool {
+	verifPoint("subject_behavior:IsCompleted:lock#0", s)
 	s.mu.Lock()
+	defer verifPoint("subject_behavior:IsCompleted:ret#0", s)
 	defer s.mu.Unlock()
 
 	return s.status == KindComplete
